@@ -44,6 +44,11 @@ type Location struct {
 	//
 	// sys.System should be a good Provider.
 	Provider LocationProvider
+
+	// addMutex makes the capacity check and the addition that
+	// follows it one step.  Otherwise concurrent additions all
+	// pass the check and the location ends up above MaxFacts.
+	addMutex sync.Mutex
 }
 
 // Updated returns the in-memory timestamp of the last update.
@@ -168,7 +173,7 @@ func NewLocation(ctx *Context, name string, state State, ctrl *Control) (*Locati
 
 	// ToDo: CacheExpires default duration.
 	// loc := Location{sync.RWMutex{}, name, false, nil, ctrl, state, ServiceStats{}, false}
-	loc := Location{sync.RWMutex{}, name, false, nil, nil, state, 0, ServiceStats{}, false, "", sync.RWMutex{}, nil}
+	loc := Location{sync.RWMutex{}, name, false, nil, nil, state, 0, ServiceStats{}, false, "", sync.RWMutex{}, nil, sync.Mutex{}}
 
 	return &loc, loc.init(ctx)
 }
@@ -331,6 +336,8 @@ func (loc *Location) AddRule(ctx *Context, id string, rule Map) (string, error) 
 	timer := NewTimer(ctx, "AddRule")
 	Inc(&loc.stats.TotalCalls, 1)
 	var err error
+	loc.addMutex.Lock()
+	defer loc.addMutex.Unlock()
 	if loc.AtCapacity(ctx) {
 		max := loc.Control().MaxFacts
 		err = fmt.Errorf("Location state capacity limit reached (%d)", max)
@@ -466,6 +473,8 @@ func (loc *Location) AddFact(ctx *Context, id string, fact Map) (string, error) 
 	if err := loc.CheckWrite(ctx); err != nil {
 		return "", err
 	}
+	loc.addMutex.Lock()
+	defer loc.addMutex.Unlock()
 	if loc.AtCapacity(ctx) {
 		max := loc.Control().MaxFacts
 		err := fmt.Errorf("Location state capacity limit reached (%d)", max)
